@@ -32,6 +32,7 @@ import FastPasta.Props.C07
 import FastPasta.Proofs.StateSrcTie
 import FastPasta.Proofs.LinkSrcTie
 import FastPasta.Proofs.PayloadSrcTie
+import FastPasta.Props.C04
 namespace FastPasta
 namespace C02
 
@@ -2077,6 +2078,19 @@ theorem link_run_src (cfg : CheckCfg) (hst : cfg.stave = false) (ps : List (SrcR
         obtain ⟨r1', o1, _⟩ := src_link_step cfg hst st s p hr (hpk p (by simp)) s1 m1 h1
         obtain ⟨r2', o2⟩ := ih (srcLinkStep cfg st p) s1 s2 m2 r1' (fun q hq => hpk q (by simp [hq])) h2
         exact ⟨r2', by rw [List.foldl_cons, o2, o1, List.append_assoc]⟩
+
+/-- ... and from the initial state the hypothesis "the model does not stop at a panic site" is a theorem (C04 `linkRun_safe`: in the
+    non-stave modes `linkRun` succeeds on ANY packet list), so for every packet sequence of a link the fold of the translated source
+    step is related to the model's result — in particular every `Option::unwrap` / `Result::unwrap` the translated functions contain
+    (`Rs.unwrapD`, `Rs.Res.unwrapD`) is taken on its `Some` / `Ok` side along the whole run -/
+theorem link_run_src_total (cfg : CheckCfg) (hst : cfg.stave = false) (ps : List (SrcRdh.RdhCru × Nat × Bytes))
+    (st : SrcLinkRdh.LinkValidator × SrcLink.CdpRunningValidator) (hr : LinkRel cfg st (LinkSt.init cfg)) (hpk : ∀ p ∈ ps, PacketOk p) :
+    ∃ s' ms, linkRun cfg (LinkSt.init cfg) (ps.map toPacket) = .ok (s', ms) ∧
+      LinkRel cfg (ps.foldl (srcLinkStep cfg) st) s' ∧
+      SrcTie.outMsgs (ps.foldl (srcLinkStep cfg) st).1.f_out = SrcTie.outMsgs st.1.f_out ++ ms := by
+  obtain ⟨⟨s', ms⟩, hok⟩ := C04.linkRun_safe cfg (ps.map toPacket) (by intro h; rw [hst] at h; cases h) (LinkSt.init cfg)
+    (Or.inr rfl) (fun _ => Or.inr trivial)
+  exact ⟨s', ms, hok, link_run_src cfg hst ps st _ s' ms hr hpk hok⟩
 
 /-- the hypotheses of `link_run_src` are met at the start: freshly constructed validators (`RdhCruSanityValidator::new_from_config` as tied
     in C10 `validator_for_config_src`, `RdhCruRunningChecker::new`, a `CdpRunningValidator` with the default state machine and an empty
